@@ -258,7 +258,15 @@ def fn_scico(rec, sh, cplx):
         W = None
         if rec.get("W") is not None:
             W = linop.Diagonal(unflat(rec["W"], rec["yshape"], False), input_dtype=dtype_of(cplx))
-        return loss.SquaredL2Loss(y=y, A=A, scale=rec["s"], W=W, prox_kwargs={"maxiter": 400, "tol": 1e-15})
+        rs = rec.get("resc")
+        if rs is None:
+            return loss.SquaredL2Loss(y=y, A=A, scale=rec["s"], W=W, prox_kwargs={"maxiter": 400, "tol": 1e-15})
+        # the same loss (scale s) reached through the arithmetic of Loss objects: c * L, L * c, L / c rescale `scale`
+        op, c = rs[0], float(rs[1])
+        s0 = rec["s"] * c if op == "/" else rec["s"] / c
+        base = loss.SquaredL2Loss(y=y, A=A, scale=s0, W=W, prox_kwargs={"maxiter": 400, "tol": 1e-15})
+        out = base / c if op == "/" else (c * base if op == "l*" else base * c)
+        return out  # the rescaling is what is under test: the model uses rec["s"]
     raise Infra(f"unknown functional recipe {k}")
 
 
@@ -888,6 +896,8 @@ def gen_loss(rng, xshape, cplx, A="any"):
          "y": rand_value(rng, ysh, cplx)}
     if rng.integers(0, 3) == 0:
         r["W"] = (np.abs(dy(rng, (size_of(ysh),), 2, 2.0)) + (0.0 if rng.integers(0, 3) == 0 else 0.25)).tolist()
+    if rng.integers(0, 3) == 0:
+        r["resc"] = _pick(rng, [["/", 2.0], ["/", 3.0], ["/", 0.5], ["l*", 2.0], ["r*", 4.0], ["l*", 0.5]])
     return r
 
 
@@ -957,6 +967,8 @@ def _gen_admm(rng, cplx, edge):
             f = {"k": "sqloss", "s": _pick(rng, [0.5, 1.0, 2.0]), "A": Arec, "yshape": [m], "y": rand_value(rng, (m,), cplx)}
             if rng.integers(0, 3) == 0:
                 f["W"] = (np.abs(dy(rng, (m,), 2, 2.0)) + 0.25).tolist()
+            if rng.integers(0, 3) == 0:
+                f["resc"] = _pick(rng, [["/", 2.0], ["/", 3.0], ["l*", 2.0], ["r*", 0.5]])
     elif solver == "circ":
         f = _maybe(rng, {"k": "sqloss", "s": _pick(rng, [0.5, 1.0, 2.0, 0.25]), "A": None, "yshape": list(xs),
                          "y": rand_value(rng, xs, cplx)}, 0.3)
@@ -1264,6 +1276,8 @@ def gen_exact(rng, alg):
         A = _pick(rng, [imat(int(rng.integers(1, 4)), n), None])
         m = n if A is None else len(A["M"])
         f = {"k": "sqloss", "s": _pick(rng, [0.5, 1.0]), "A": A, "yshape": [m], "y": dy3((m,))}
+        if rng.integers(0, 2):
+            f["resc"] = _pick(rng, [["/", 2.0], ["l*", 2.0], ["r*", 0.5], ["/", 0.25]])
         return {"alg": "pgm", "cplx": False, "xshape": xs, "f": f, "g": fn(), "L0": p2([3, 4, 5]), "x0": dy3((n,)),
                 "pol": {"kind": "base", "real": True}, "exact": True}
     raise Infra("exact stream: " + alg)
